@@ -30,6 +30,9 @@ use crate::common;
 
 thread_local! {
     static HEAP: RefCell<Heap> = RefCell::new(Heap::new());
+    /// Objects found reachable whose references have not been followed yet. Tracing works through
+    /// this list instead of recursing, so its depth does not grow with the nesting of the data.
+    static GREY_OBJECTS: RefCell<Vec<NonNull<GcBox<dyn GcManaged>>>> = RefCell::new(Vec::new());
 }
 
 #[derive(Copy, Clone, PartialEq)]
@@ -73,16 +76,19 @@ impl<T: 'static + GcManaged + ?Sized> GcBox<T> {
         self.colour.set(Colour::White);
     }
 
-    fn mark(&self) {
-        if self.colour.replace(Colour::Grey) == Colour::Grey {
-            return;
+    /// Returns whether the object had not been reached before.
+    fn mark_grey(&self) -> bool {
+        if self.colour.get() != Colour::White {
+            return false;
         }
+        self.colour.set(Colour::Grey);
         if cfg!(feature = "debug_trace_gc") {
             println!("{:?} mark", self as *const _);
         }
-        self.data.mark();
+        true
     }
 
+    /// Follows the references of an object taken from the list of grey objects.
     fn blacken(&self) {
         if self.colour.replace(Colour::Black) == Colour::Black {
             return;
@@ -90,7 +96,7 @@ impl<T: 'static + GcManaged + ?Sized> GcBox<T> {
         if cfg!(feature = "debug_trace_gc") {
             println!("{:?} blacken", self as *const _);
         }
-        self.data.blacken();
+        self.data.mark();
     }
 
     fn inc_num_roots(&self) {
@@ -99,6 +105,23 @@ impl<T: 'static + GcManaged + ?Sized> GcBox<T> {
 
     fn dec_num_roots(&self) {
         self.num_roots.replace(self.num_roots.get() - 1);
+    }
+}
+
+impl<T: 'static + GcManaged> GcBox<T> {
+    fn mark(&self) {
+        if self.mark_grey() {
+            let as_dyn: &GcBox<dyn GcManaged> = self;
+            GREY_OBJECTS.with(|grey| grey.borrow_mut().push(NonNull::from(as_dyn)));
+        }
+    }
+}
+
+impl GcBox<dyn GcManaged> {
+    fn mark(&self) {
+        if self.mark_grey() {
+            GREY_OBJECTS.with(|grey| grey.borrow_mut().push(NonNull::from(self)));
+        }
     }
 }
 
@@ -149,13 +172,13 @@ impl<T: GcManaged + ?Sized> Root<T> {
     }
 }
 
-impl<T: 'static + GcManaged + ?Sized> GcManaged for Root<T> {
+impl<T: 'static + GcManaged> GcManaged for Root<T> {
     fn mark(&self) {
         self.gc_box().mark();
     }
 
     fn blacken(&self) {
-        self.gc_box().blacken();
+        self.gc_box().mark();
     }
 }
 
@@ -250,13 +273,13 @@ impl<T: GcManaged + ?Sized> UniqueRoot<T> {
     }
 }
 
-impl<T: 'static + GcManaged + ?Sized> GcManaged for UniqueRoot<T> {
+impl<T: 'static + GcManaged> GcManaged for UniqueRoot<T> {
     fn mark(&self) {
         self.gc_box().mark();
     }
 
     fn blacken(&self) {
-        self.gc_box().blacken();
+        self.gc_box().mark();
     }
 }
 
@@ -319,13 +342,13 @@ impl<T: 'static + GcManaged + ?Sized> Gc<T> {
     }
 }
 
-impl<T: 'static + GcManaged + ?Sized> GcManaged for Gc<T> {
+impl<T: 'static + GcManaged> GcManaged for Gc<T> {
     fn mark(&self) {
         self.gc_box().mark();
     }
 
     fn blacken(&self) {
-        self.gc_box().blacken();
+        self.gc_box().mark();
     }
 }
 
@@ -481,19 +504,9 @@ impl Heap {
     }
 
     fn trace_references(&mut self) {
-        let mut num_greys = self
-            .objects
-            .iter()
-            .filter(|obj| obj.colour.get() == Colour::Grey)
-            .count();
-        #[allow(clippy::suspicious_map)]
-        while num_greys > 0 {
-            num_greys = self
-                .objects
-                .iter_mut()
-                .filter(|obj| obj.colour.get() == Colour::Grey)
-                .map(|obj| obj.blacken())
-                .count();
+        while let Some(object) = GREY_OBJECTS.with(|grey| grey.borrow_mut().pop()) {
+            // Every object on the list is owned by `self.objects` and nothing is freed while tracing.
+            unsafe { object.as_ref() }.blacken();
         }
     }
 
